@@ -750,6 +750,11 @@ def run_instance(inst, tier='quick', seed=0, replay_dir=None, prefix=None, first
                         else:
                             fl['exception'] = _exc_str(e)
                             fl['traceback'] = ''.join(traceback.format_exception(type(e), e, e.__traceback__))[-1500:]
+                            # where was it raised: in repository code, or inside one of the engine's NumPy handlers?
+                            tb_ = e.__traceback__
+                            while tb_ is not None and tb_.tb_next is not None:
+                                tb_ = tb_.tb_next
+                            fl['engine_origin'] = bool(tb_ is not None and os.sep + 'pbv' + os.sep in tb_.tb_frame.f_code.co_filename)
                             fails.append(fl)
                 if inst.frame and not isinstance(out[1] if out[0] == 'exc' else None, FrameViolation):
                     # every caller-owned array has read-only storage: a write through any view would have raised
@@ -873,7 +878,7 @@ def _replay(inst, rep, fl, seed, replay_dir, conc_samples):
         attempts.append('%d random samples' % tries)
     viol = {'obligation': name, 'kind': fl['kind'], 'confirmed': confirmed is not None, 'replay': None,
             'no_input': confirmed is None, 'has_uf': fl['has_uf'], 'backend': fl['backend'],
-            'exception': fl.get('exception')}
+            'exception': fl.get('exception'), 'engine_origin': bool(fl.get('engine_origin'))}
     payload = {
         'property': inst.prop, 'function': inst.func, 'instance': inst.name, 'obligation': name,
         'kind': fl['kind'], 'solver': fl['backend'], 'attempts': attempts,
